@@ -106,9 +106,24 @@ fn check_int(v: i64, expect: &[u8], rep: &mut Report) {
     }
 }
 
+/// what the code under test produced, for a report: all of it up to 70 000 octets, the head and the size beyond that
+fn hex_cap(b: &[u8]) -> String {
+    if b.len() > 70_000 {
+        format!("{}...({} octets)", hex(&b[..70_000]), b.len())
+    } else {
+        hex(b)
+    }
+}
+
 pub fn replay(path: &str, rep: &mut Report) {
     let tail = [0xaau8, 0xbb];
     let n = tlcout::for_each_tagged(path, "VEC", |v| {
+        // a codec that is wrong on (nearly) every vector has been shown to be wrong: do not spend the time budget on
+        // rendering thousands more cases (a defect that makes every later output grow would otherwise end as a timeout)
+        if rep.mismatch_total >= 200 {
+            rep.count("skipped-after-200-disagreements");
+            return;
+        }
         let m = v["m"].as_str().unwrap_or("");
         match m {
             "tree" => {
@@ -124,12 +139,12 @@ pub fn replay(path: &str, rep: &mut Report) {
                 // encode, two construction paths
                 match encode(st.clone()) {
                     Ok(b) if b == enc => {}
-                    Ok(b) => rep.mismatch("encode:bytes-differ", json!({"tree": t, "expected": hex(&enc), "got": hex(&b)})),
+                    Ok(b) => rep.mismatch("encode:bytes-differ", json!({"tree": t, "expected": hex(&enc), "got": hex_cap(&b)})),
                     Err(e) => rep.mismatch("encode:error", json!({"tree": t, "error": e})),
                 }
                 match catch({ let tt = t.clone(); move || tree_to_tag(&tt).into_structure() }).and_then(encode) {
                     Ok(b) if b == enc => {}
-                    Ok(b) => rep.mismatch("encode-typed:bytes-differ", json!({"tree": t, "expected": hex(&enc), "got": hex(&b)})),
+                    Ok(b) => rep.mismatch("encode-typed:bytes-differ", json!({"tree": t, "expected": hex(&enc), "got": hex_cap(&b)})),
                     Err(e) => rep.mismatch("encode-typed:error", json!({"tree": t, "error": e})),
                 }
                 // parse canonical encoding with trailing bytes
@@ -259,7 +274,7 @@ pub fn trace(out: &str, count: u64, rep: &mut Report) {
                     };
                     rep.eval(!matches!(t.payload, PL::P(_)), hash_of(&b));
                     if i < 4 {
-                        rep.sample(json!({"m": "tree", "tree": tj, "bytes": hex(&b)}));
+                        rep.sample(json!({"m": "tree", "tree": tj, "bytes": hex_cap(&b)}));
                     }
                     writeln!(f, "{}", json!({"m": "tree", "tree": tj, "bytes": b, "parsed": ptree, "rest": rest})).unwrap();
                 }
